@@ -32,8 +32,8 @@ LEVEL_TEXT = (
     "implementation for random band-limited functions with harmonics from scipy.special.sph_harm_y."
 )
 TECHNIQUE = "Lean 4 proof (conditional on H1/H2/H3) of the hand model + differential correspondence + oracle with independent harmonics and finite differences"
-GEN = []
-LEAN_MODULES = ["GridVerif.Props.C09", "GridVerif.Props.C09.Example"]
+GEN = ["atominterp"]
+LEAN_MODULES = ["GridVerif.Props.C09", "GridVerif.Props.C09.Example", "GridVerif.Props.C09.Gen"]
 THEOREMS = [
     "GridVerif.C09.reweighted_sum_is_integral",
     "GridVerif.C09.angular_integral_exact",
@@ -53,6 +53,13 @@ THEOREMS = [
     "GridVerif.C09.mol_interp_is_sum",
     "GridVerif.C09.spline_contract_satisfiable",
     "GridVerif.C09.ex_H1",
+    "GridVerif.C09.gen_integrate_eq_model",
+    "GridVerif.C09.gen_components_eq_model",
+    "GridVerif.C09.gen_splines_eq_model",
+    "GridVerif.C09.gen_degrees_agree",
+    "GridVerif.C09.gen_reweighted_sum_is_integral",
+    "GridVerif.C09.gen_angular_integral_exact",
+    "GridVerif.C09.gen_components_recovered",
 ]
 RULE = (
     "correspondence: atomic grids with 1..7 shells, radial nodes incl. r = 0, 0 < r < 1e-8 and ordinary ones, random positive "
@@ -61,11 +68,24 @@ RULE = (
     "node values, radial components after the zeroing rule (given the library's basis array), convert_cartesian_to_spherical "
     "with and without argument (canonical angles of r = 0 shells), the assembly of interpolate_low for deriv 0..3 and every "
     "flag combination at random points, the centre and the polar axis (given spline and harmonic tables), MolGrid's summation; "
-    "non-trivial = >=2 distinct shell degrees, or a shell with r < 1e-8, or a rotation seed, or a derivative request"
+    "non-trivial = >=2 distinct shell degrees, or a shell with r < 1e-8, or a rotation seed, or a derivative request. "
+    "Round 2: func_vals and evaluation points as float32 / int64 / int32 / bool / read-only / strided / Fortran-ordered / shape-(3,) arrays "
+    "(bit-identical with the float64 computation on a newly built grid; caller's arrays unchanged); seeded random call histories of the four "
+    "entry points and of get_shell_grid / convert_cartesian_to_spherical / points / weights / basis on one grid object with two functions, and "
+    "interleaved on two grids alive at once that agree in (l_max, size, method) but not in their angles (answers bit-identical with newly built "
+    "grids; decomposition compared with the model given harmonics from scipy at independently computed angles, not the cached basis); radial "
+    "nodes 9.99e-9, 1e-8, 1.01e-8 incl. subnormal products f_j w_j (which separate the two branches of the 1e-8 rule); evaluation points at "
+    "|r| = 9e-11 .. 1.1e-10 and with z/r rounding to +-1; keyword and positional forms of the interpolant. Oracle additionally: the clauses along "
+    "call histories, for integer (shell-wise constant) / float32 / read-only / strided func_vals, on grids from from_pruned / from_preset / sizes=, "
+    "rotated grids with an r = 0 shell, MolGrid under histories and rebuilt"
 )
 TRUSTED_BASE = [
     "Lean 4.33 kernel; axioms propext, Classical.choice, Quot.sound only (audited per theorem)",
-    "hand model Model/AtomInterp.lean of the NumPy array code (arrays as index functions, slices as index ranges), tied by correspondence",
+    "hand model Model/AtomInterp.lean of the NumPy array code (arrays as index functions, slices as index ranges), tied by correspondence; "
+    "its integrateAngular / radialComponents / averageValues / splines are proved equal to Gen/AtomInterp.lean, the AST translation "
+    "(harness/translate/atominterp.py, regenerated on every run) of integrate_angular_coordinates (weights, slice bounds, division by "
+    "r**2 * w, the r < 1e-8 branch), spherical_average, radial_component_splines (einsum product, zeroing rule, l_max // 2) and of the "
+    "degree arguments of the harmonics calls in interpolate_low; attribute dictionary self.weights = wts, self.indices = idx, ... trusted",
     "Elem instance of the reals (sqrt, sin, cos, arccos, arctan2 = Complex.arg, pi)",
     "NumPy slicing / einsum / hstack / broadcasting semantics as modelled",
 ]
@@ -100,14 +120,19 @@ def _mods():
 # input generation
 # ----------------------------------------------------------------------------------------------
 def _radial(rng, n, zero_kind):
-    """n strictly increasing nodes; zero_kind: 'none' | 'zero' | 'tiny' | 'both'."""
+    """n strictly increasing nodes; zero_kind: 'none' | 'zero' | 'tiny' | 'both' | 'edge' | 'zero-edge'
+    ('edge': nodes just below, exactly at and just above the hard-coded 1e-8 of integrate_angular_coordinates,
+    and one between 1e-8 and 1e-7; at least two ordinary nodes follow)."""
     r = []
     x = 0.0
-    if zero_kind in ("zero", "both"):
+    if zero_kind in ("zero", "both", "zero-edge"):
         r.append(0.0)
     if zero_kind in ("tiny", "both"):
         r.append(rng.choice([1e-9, 3e-9, 9.9e-9]))
         x = 0.0
+    if zero_kind in ("edge", "zero-edge"):
+        r += [9.99e-9, 1e-8, 1.01e-8, rng.choice([2e-8, 5e-8, 9.9e-8])]
+        n = max(n, len(r) + 2)
     while len(r) < n:
         x += rng.uniform(0.15, 0.9)
         r.append(round(x, 3) if rng.random() < 0.3 else x)
@@ -128,7 +153,7 @@ def _degrees(rng, method, n, mixed, cap=None):
     return out
 
 
-def _atom_grid(ctx, M, n=None, method=None, mixed=None, zero_kind=None, cap=None, center=None, rotate=None):
+def _atom_grid(ctx, M, n=None, method=None, mixed=None, zero_kind=None, cap=None, center=None, rotate=None, degs=None):
     ag, od = M[0], M[1]
     rng = ctx.rng
     n = n if n is not None else rng.choice([1, 2, 2, 3, 3, 4, 5, 7])
@@ -138,7 +163,8 @@ def _atom_grid(ctx, M, n=None, method=None, mixed=None, zero_kind=None, cap=None
     if n == 1 and zero_kind == "both":
         zero_kind = "zero"
     r, w = _radial(rng, n, zero_kind)
-    degs = _degrees(rng, method, n, mixed, cap)
+    n = len(r)
+    degs = _degrees(rng, method, n, mixed, cap) if degs is None else [degs[i % len(degs)] for i in range(n)]
     if center is None:
         center = rng.choice([np.zeros(3), np.array([rng.uniform(-2, 2) for _ in range(3)]), np.array([0.5, -1.25, 2.0])])
     if rotate is None:
@@ -198,6 +224,11 @@ def _eval_points(rng, g, m):
         pts.append(c + d * rng.uniform(0.05, 1.1) * rmax)
     pts += [c.copy(), c + np.array([0, 0, 0.37 * rmax]), c + np.array([0, 0, -0.61 * rmax]), c + np.array([0.4 * rmax, 0, 0]),
             g.points[rng.randrange(g.size)].copy()]
+    # next to the hard-coded thresholds of the evaluation side: |r| just below / at / above 1e-10, directions whose z / r rounds
+    # to +-1 (phi = 0 or pi with theta != 0) and a polar angle of ~2e-8 (the smallest non-zero one arccos returns is 1.5e-8)
+    near = [[9e-11, 0, 0], [0, 1.1e-10, 0], [0, 0, -9e-11], [0, 0, 1e-10], [6e-11, 6e-11, 6e-11], [0, 1e-9 * rmax, 0.5 * rmax],
+            [1e-9 * rmax, -1e-9 * rmax, -0.5 * rmax], [2e-8 * rmax, 0, 0.5 * rmax]]
+    pts += [c + np.array(v, dtype=float) for v in rng.sample(near, 2)]
     return np.array(pts)
 
 
@@ -213,6 +244,424 @@ def _cmp_arrays(a, b, rtol, scale=None, atol=0.0):
 
 def _nontrivial(info, extra=False):
     return len(set(info["degs"])) >= 2 or info["zero"] != "none" or info["rotate"] != 0 or extra
+
+
+# ----------------------------------------------------------------------------------------------
+# round 2: stateless references, dtype / container variants of the array arguments, call histories
+# ----------------------------------------------------------------------------------------------
+OPNAME = {"iac": "integrate_angular_coordinates", "avg": "spherical_average", "rcs": "radial_component_splines", "interp": "interpolate"}
+FLAGS = [(0, False, False), (1, False, False), (1, True, False), (2, False, True)]
+
+
+def _build(M, info):
+    """a new grid object from the recorded parameters (constructor, or the recorded alternative construction route)."""
+    ag, od = M[0], M[1]
+    rg = od.OneDGrid(np.array(info["r"], dtype=float), np.array(info["w"], dtype=float), (0, np.inf))
+    kw = dict(center=np.array(info["center"], dtype=float), rotate=int(info["rotate"]), method=info["method"])
+    route = info.get("route", "ctor")
+    if route == "pruned":
+        return ag.AtomGrid.from_pruned(rg, info["radius"], info["r_sectors"], info["d_sectors"], **kw)
+    if route == "pruned-sizes":
+        return ag.AtomGrid.from_pruned(rg, info["radius"], r_sectors=info["r_sectors"], d_sectors=None, s_sectors=info["s_sectors"], **kw)
+    if route == "preset":
+        return ag.AtomGrid.from_preset(info["atnum"], info["preset"], rg, kw["center"], kw["rotate"], kw["method"])
+    if route == "sizes":
+        return ag.AtomGrid(rg, None, sizes=list(info["sizes"]), **kw)
+    return ag.AtomGrid(rg, degrees=list(info["degs"]), **kw)
+
+
+def _run_op(g, op, f, pts):
+    """one entry point applied to func_vals f; everything it returns as one flat array (for splines their coefficient
+    arrays, for the interpolant its values and derivative reports at pts)."""
+    if op == "iac":
+        return np.ravel(np.asarray(g.integrate_angular_coordinates(f)))
+    if op == "avg":
+        return np.ravel(np.asarray(g.spherical_average(f).c))
+    if op == "rcs":
+        return np.ravel(np.array([s.c for s in g.radial_component_splines(f)]))
+    F = g.interpolate(f)
+    return np.concatenate([np.ravel(np.asarray(F(pts, dv, ds, orad), dtype=np.longdouble)) for (dv, ds, orad) in FLAGS])
+
+
+def _same(a, b):
+    """bit-for-bit equal arrays (nan in the same places)"""
+    a, b = np.asarray(a), np.asarray(b)
+    return a.shape == b.shape and bool(np.array_equal(a, b, equal_nan=True))
+
+
+def _comps(M, g, f):
+    """the radial components handed to CubicSpline by radial_component_splines(f)"""
+    with _SplineSpy(M[0]) as spy:
+        spl = g.radial_component_splines(f)
+    comps = np.array([y for (_, y) in spy.calls])
+    if comps.shape != (len(spl), g.n_shells):
+        comps = np.array([s(g.rgrid.points) for s in spl])
+    return comps
+
+
+def _indep_basis(M, g):
+    """real harmonics up to l_max // 2 at the angles of the grid points, from scipy.special.sph_harm_y and angles computed here
+    (shells with r = 0: the documented canonical angles, those of the unrotated angular grid of that degree). Nothing cached on
+    the grid object or in grid.atomgrid is read."""
+    ang = M[2]
+    az, pol = np.zeros(g.size), np.zeros(g.size)
+    rel = g.points - g.center
+    for i in range(g.n_shells):
+        s, e = g.indices[i], g.indices[i + 1]
+        v = ang.AngularGrid(degree=int(g.degrees[i]), method=g.method).points if float(g.rgrid.points[i]) == 0.0 else rel[s:e]
+        _, az[s:e], pol[s:e] = _angles(v)
+    return real_harmonics(int(max(g.degrees)) // 2, az, pol)
+
+
+def _fvariants(f):
+    """(kind, array handed to the library, the same values as a C-contiguous float64 array) for 1-D func_vals"""
+    out = []
+    f32 = f.astype(np.float32)
+    out.append(("float32", f32, f32.astype(np.float64)))
+    ints = np.rint(f / (float(np.max(np.abs(f))) + 1e-300) * 50).astype(np.int64).astype(np.float64)      # through int: no negative zeros
+    out.append(("int64", ints.astype(np.int64), ints.copy()))
+    out.append(("int32", ints.astype(np.int32), ints.copy()))
+    out.append(("bool", f > 0, (f > 0).astype(np.float64)))
+    ro = f.copy()
+    ro.setflags(write=False)
+    out.append(("readonly", ro, f.copy()))
+    big = np.zeros(2 * f.size + 1)
+    big[1::2] = f
+    out.append(("strided", big[1::2], f.copy()))
+    rev = f[::-1].copy()
+    out.append(("negative-stride", rev[::-1], f.copy()))
+    roi = ints.astype(np.int64)
+    roi.setflags(write=False)
+    out.append(("readonly-int64", roi, ints.copy()))
+    return out
+
+
+def _pvariants(P):
+    """(kind, points handed to the interpolant, the same points as a C-contiguous float64 array of shape (k, 3))"""
+    out = []
+    p32 = P.astype(np.float32)
+    out.append(("float32", p32, p32.astype(np.float64)))
+    pint = np.rint(P * 2).astype(np.int64).astype(np.float64)      # through int: no negative zeros (arctan2 tells them apart)
+    out.append(("int64", pint.astype(np.int64), pint.copy()))
+    out.append(("int32", pint.astype(np.int32), pint.copy()))
+    ro = P.copy()
+    ro.setflags(write=False)
+    out.append(("readonly", ro, P.copy()))
+    big = np.zeros((2 * len(P), 6))
+    big[::2, ::2] = P
+    out.append(("strided", big[::2, ::2], P.copy()))
+    out.append(("fortran", np.asfortranarray(P), P.copy()))
+    out.append(("single-(3,)", P[0].copy(), P[:1].copy()))
+    out.append(("single-(3,)-int", pint[-1].astype(np.int64), pint[-1:].copy()))
+    return out
+
+
+def _chk_components(ctx, key, what, info, comps, fscale):
+    def chk(ans):
+        if not ans.startswith("ok"):
+            return ctx.fail("corr", key, f"{what}: model answered {ans[:60]}", witness=info)
+        t = Tokens(ans); t.tok(); t.nat()
+        mm = np.array(t.fmat())
+        if mm.shape != comps.shape or not _cmp_arrays(comps, mm, 1e-9, scale=fscale * 4 * math.pi):
+            ctx.fail("corr", key, f"{what}: radial components differ from the model's (model given the harmonics of the grid angles from scipy.special.sph_harm_y, "
+                     "not the array cached on the grid object)", witness=info)
+    return chk
+
+
+def _chk_integrate(ctx, key, what, info, impl, fscale):
+    impl = np.array(impl, dtype=float).reshape(-1)
+
+    def chk(ans):
+        if not ans.startswith("ok"):
+            return ctx.fail("corr", key, f"{what}: model answered {ans[:60]}", witness=info)
+        t = Tokens(ans); t.tok()
+        mv = np.array(t.fvec(), dtype=float)
+        if mv.shape != impl.shape or not bool(np.all(np.abs(mv - impl) <= 1e-10 * 4 * math.pi * fscale)):
+            ctx.fail("corr", key, f"{what}: per-shell angular integrals differ from the model", witness=dict(info=info, impl=impl, model=mv))
+    return chk
+
+
+def _r2_dtype(ctx, M, add, g, info, all_kinds):
+    """class 2/3: dtype and container kind of func_vals and of the evaluation points; the caller's arrays stay untouched."""
+    rng = ctx.rng
+    N = g.size
+    f0 = ctx.np_rng.normal(size=N) * 10 ** rng.uniform(-1, 1)
+    pts = _eval_points(rng, g, 2)
+    gt = _grid_tokens(M, g)
+    fv = _fvariants(f0)
+    for kind, arr, ref64 in (fv if all_kinds else rng.sample(fv, 3)):
+        keep = arr.copy()
+        fresh = _build(M, info)
+        desc = f"func_vals given as {kind} (dtype {arr.dtype}, C-contiguous {arr.flags.c_contiguous}, writeable {arr.flags.writeable})"
+        for op in ("iac", "avg", "rcs", "interp"):
+            key = f"atomgrid.{OPNAME[op]}:dtype"
+            ctx.count(["func_vals", kind, op, info], nontrivial=True, tag=f"func_vals:{kind}")
+            try:
+                got = _run_op(g, op, arr, pts)
+            except Exception as e:  # noqa: BLE001
+                ctx.fail("corr", key, f"{OPNAME[op]} raised {type(e).__name__}: {e}; {desc}", witness=dict(info=info, kind=kind))
+                continue
+            ref = _run_op(fresh, op, ref64.copy(), pts.copy())
+            if not _same(got, ref):
+                ctx.fail("corr", key, f"{OPNAME[op]}: {desc}: result differs from the one for the same values as float64 on a newly built identical grid "
+                         f"(max deviation {float(np.max(np.abs(np.nan_to_num(np.asarray(got, dtype=float) - np.asarray(ref, dtype=float))))) if got.shape == ref.shape else 'shape'})",
+                         witness=dict(info=info, kind=kind, values=ref64))
+            if arr.dtype != keep.dtype or not _same(arr, keep):
+                ctx.fail("corr", f"atomgrid.{OPNAME[op]}:modifies-input", f"{OPNAME[op]} changed the caller's func_vals array ({desc})", witness=dict(info=info, kind=kind))
+                arr = keep.copy()          # the later entry points are examined on the original values
+            if op == "iac" and kind in ("float32", "int64", "int32", "bool"):
+                add(f"C09.integrate {gt} {fvec(ref64)}", _chk_integrate(ctx, key, desc, info, got, float(np.max(np.abs(ref64))) + 1e-300))
+    # 2-D func_vals of integrate_angular_coordinates in other memory layouts (the reduction order over the last axis follows the
+    # layout, so these are compared at 1e-13, not bit for bit)
+    f2 = ctx.np_rng.normal(size=(3, N))
+    big = np.zeros((6, N))
+    big[::2] = f2
+    for kind, arr in (("2d-fortran", np.asfortranarray(f2)), ("2d-float32", f2.astype(np.float32)), ("2d-rows-strided", big[::2]),
+                      ("2d-int64", np.rint(f2 * 10).astype(np.int64))):
+        keep = arr.copy()
+        ctx.count(["func_vals", kind, info], nontrivial=True, tag=f"func_vals:{kind}")
+        try:
+            got = np.asarray(g.integrate_angular_coordinates(arr))
+        except Exception as e:  # noqa: BLE001
+            ctx.fail("corr", "atomgrid.integrate_angular_coordinates:dtype", f"raised {type(e).__name__}: {e} for 2-D func_vals given as {kind}", witness=dict(info=info, kind=kind))
+            continue
+        ref = np.asarray(_build(M, info).integrate_angular_coordinates(np.ascontiguousarray(arr, dtype=np.float64)))
+        if got.shape != ref.shape or not _cmp_arrays(got, ref, 1e-13, scale=float(np.max(np.abs(ref))) + 1e-300):
+            ctx.fail("corr", "atomgrid.integrate_angular_coordinates:dtype", f"2-D func_vals given as {kind}: result differs from the float64 C-contiguous computation",
+                     witness=dict(info=info, kind=kind))
+        if arr.dtype != keep.dtype or not _same(arr, keep):
+            ctx.fail("corr", "atomgrid.integrate_angular_coordinates:modifies-input", f"changed the caller's 2-D func_vals array ({kind})", witness=dict(info=info, kind=kind))
+    # evaluation points of the interpolant
+    if g.n_shells < 2:
+        return
+    F = g.interpolate(f0)
+    Fref = _build(M, info).interpolate(f0.copy())
+    for kind, arr, ref64 in _pvariants(pts):
+        keep = arr.copy()
+        ctx.count(["points", kind, info], nontrivial=True, tag=f"points:{kind}")
+        for (dv, ds, orad) in FLAGS:
+            try:
+                got = np.asarray(F(arr, dv, ds, orad))
+            except Exception as e:  # noqa: BLE001
+                ctx.fail("corr", "atomgrid.interpolate:points-dtype", f"the interpolant raised {type(e).__name__}: {e} for points given as {kind} (shape {arr.shape}, dtype {arr.dtype}), "
+                         f"deriv={dv}, deriv_spherical={ds}, only_radial_deriv={orad}", witness=dict(info=info, kind=kind, points=ref64))
+                break
+            ref = np.asarray(Fref(ref64.copy(), dv, ds, orad))
+            if not _same(got, ref):
+                ctx.fail("corr", "atomgrid.interpolate:points-dtype", f"points given as {kind} (shape {arr.shape}, dtype {arr.dtype}), deriv={dv}, deriv_spherical={ds}, "
+                         f"only_radial_deriv={orad}: output {got.shape} differs from the one for the same points as a float64 (k, 3) array {ref.shape}",
+                         witness=dict(info=info, kind=kind, points=ref64))
+        if arr.dtype != keep.dtype or not _same(arr, keep):
+            ctx.fail("corr", "atomgrid.interpolate:modifies-points", f"the interpolant changed the caller's points array ({kind})", witness=dict(info=info, kind=kind))
+        if kind in ("float32", "int64", "single-(3,)", "fortran"):
+            sph = g.convert_cartesian_to_spherical(arr)
+
+            def chk_sph(ans, sph=sph, kind=kind, ref64=ref64):
+                t = Tokens(ans); t.tok()
+                if not ans.startswith("ok") or not _cmp_arrays(sph, np.array(t.fmat()), 1e-13, scale=max(1.0, float(np.max(np.abs(sph)))), atol=1e-15):
+                    ctx.fail("corr", "atomgrid.convert_cartesian_to_spherical:points-dtype", f"spherical coordinates of points given as {kind} differ from the model",
+                             witness=dict(info=info, points=ref64))
+            add(f"C09.cart_to_sph {' '.join(f2b(x) for x in g.center)} {fmat(ref64)}", chk_sph)
+    # containers the documentation does not promise (ndarray(N, 3) is documented): information only
+    for kind, arr in (("list", pts.tolist()), ("tuple", tuple(map(tuple, pts.tolist())))):
+        try:
+            got = np.asarray(F(arr))
+        except (AttributeError, TypeError, ValueError):
+            ctx.count(["points", kind, "rejected"], nontrivial=False, tag=f"points:{kind}:rejected")
+            continue
+        ctx.count(["points", kind, "accepted"], nontrivial=False, tag=f"points:{kind}:accepted")
+        if not _same(got, np.asarray(Fref(pts.copy()))):
+            ctx.fail("corr", "atomgrid.interpolate:points-dtype", f"points given as a Python {kind} are accepted but the values differ from the ndarray call", witness=dict(info=info, points=pts))
+    # keyword and positional forms of the interpolant, defaults written out and left out
+    want = {fl: np.asarray(Fref(pts.copy(), fl[0], fl[1], fl[2])) for fl in FLAGS}
+    forms = [((0, False, False), "F(p)", lambda: F(pts)), ((0, False, False), "F(p, deriv=0)", lambda: F(pts, deriv=0)),
+             ((0, False, False), "F(points=p, deriv_spherical=False, only_radial_deriv=False)", lambda: F(points=pts, deriv_spherical=False, only_radial_deriv=False)),
+             ((0, False, False), "F(p, 0, False, False)", lambda: F(pts, 0, False, False)),
+             ((1, False, False), "F(p, 1)", lambda: F(pts, 1)), ((1, False, False), "F(p, deriv=1)", lambda: F(pts, deriv=1)),
+             ((1, False, False), "F(p, deriv=1, deriv_spherical=False, only_radial_deriv=False)", lambda: F(pts, deriv=1, deriv_spherical=False, only_radial_deriv=False)),
+             ((1, True, False), "F(p, 1, True)", lambda: F(pts, 1, True)), ((1, True, False), "F(p, deriv_spherical=True, deriv=1)", lambda: F(pts, deriv_spherical=True, deriv=1)),
+             ((2, False, True), "F(p, 2, False, True)", lambda: F(pts, 2, False, True)),
+             ((2, False, True), "F(p, only_radial_deriv=True, deriv=2)", lambda: F(pts, only_radial_deriv=True, deriv=2))]
+    for fl, text, call in forms:
+        ctx.count(["call-form", text, info], nontrivial=True, tag="call-form")
+        try:
+            got = np.asarray(call())
+        except Exception as e:  # noqa: BLE001
+            ctx.fail("corr", "atomgrid.interpolate:call-form", f"{text} raised {type(e).__name__}: {e}", witness=info)
+            continue
+        if not _same(got, want[fl]):
+            ctx.fail("corr", "atomgrid.interpolate:call-form", f"{text} differs from the positional call with deriv={fl[0]}, deriv_spherical={fl[1]}, only_radial_deriv={fl[2]} "
+                     "on a newly built identical grid", witness=dict(info=info, points=pts))
+
+
+NEUTRAL = ["shell-rsq", "shell-plain", "sph", "sph-points", "points", "weights", "basis", "integrate"]
+
+
+def _neutral(g, rng, what, f, pts):
+    """calls and attribute reads that must not influence later answers"""
+    if what == "shell-rsq":
+        g.get_shell_grid(rng.randrange(g.n_shells), r_sq=True)
+    elif what == "shell-plain":
+        g.get_shell_grid(rng.randrange(g.n_shells), r_sq=False)
+    elif what == "sph":
+        g.convert_cartesian_to_spherical()
+    elif what == "sph-points":
+        g.convert_cartesian_to_spherical(pts)
+    elif what == "points":
+        g.points
+    elif what == "weights":
+        g.weights
+    elif what == "basis":
+        g.basis
+    else:
+        g.integrate(f)
+
+
+def _r2_history(ctx, M, add, g, info):
+    """class 1/3: one grid object, two functions (the same two array objects throughout), the four entry points and the neutral
+    calls in a seeded random order, the function calls twice; every answer against a newly built grid that saw only that call."""
+    rng = ctx.rng
+    fs = [ctx.np_rng.normal(size=g.size), ctx.np_rng.normal(size=g.size) * 3.0]
+    keep = [f.copy() for f in fs]
+    pts = _eval_points(rng, g, 2)
+    fops = [(op, k) for op in ("iac", "avg", "rcs", "interp") for k in (0, 1)]
+    seq = fops + [("neutral", w) for w in NEUTRAL]
+    rng.shuffle(seq)
+    tail = list(fops)
+    rng.shuffle(tail)
+    seq += tail[:6]
+    first = next(op for (op, _) in seq if op != "neutral")
+    ctx.count(["history", info, [list(map(str, s)) for s in seq]], nontrivial=True, tag=f"history:first={first}")
+    ref = {}
+    done = []
+    for step in seq:
+        done.append(f"{step[0]}:{step[1]}")
+        if step[0] == "neutral":
+            _neutral(g, rng, step[1], fs[0], pts)
+            continue
+        op, k = step
+        got = _run_op(g, op, fs[k], pts)
+        if step not in ref:
+            ref[step] = _run_op(_build(M, info), op, keep[k].copy(), pts.copy())
+        if not _same(got, ref[step]):
+            ctx.fail("corr", f"atomgrid.{OPNAME[op]}:history", f"{OPNAME[op]}(f{k + 1}) after the calls {done[:-1]} on the same grid object differs from the answer of a newly built identical grid",
+                     witness=dict(info=info, history=done))
+        if not _same(fs[k], keep[k]):
+            ctx.fail("corr", f"atomgrid.{OPNAME[op]}:modifies-input", f"{OPNAME[op]} changed the caller's func_vals array", witness=dict(info=info, history=done))
+            fs[k][...] = keep[k]
+    # the cached basis against harmonics that never touched the grid object; the last decomposition against the model given those
+    ind = _indep_basis(M, g)
+    if g.basis is None or np.shape(g.basis) != ind.shape or not _cmp_arrays(np.asarray(g.basis, dtype=float), ind, 1e-11, scale=1.0 + int(g.l_max)):
+        ctx.fail("corr", "atomgrid.radial_component_splines:basis-cache", "the basis cached on the grid object is not the array of real harmonics at the grid angles "
+                 "(scipy.special.sph_harm_y at independently computed angles)", witness=dict(info=info, history=done))
+    comps = _comps(M, g, fs[0])
+    add(f"C09.components {_grid_tokens(M, g)} {fmat(ind)} {fvec(keep[0])}",
+        _chk_components(ctx, "atomgrid.radial_component_splines:history", f"radial_component_splines(f1) after the calls {done}", info, comps, float(np.max(np.abs(keep[0])))))
+
+
+def _pair_infos(ctx, M):
+    """two parameter sets with the same (l_max, size, number of shells, method) but different grid angles"""
+    rng = ctx.rng
+    kind = rng.choice(["rotate", "permute", "first-node"])
+    _, a = _atom_grid(ctx, M, n=rng.choice([3, 4]), mixed=True, cap=9, zero_kind="zero" if kind == "first-node" else rng.choice(["none", "zero"]),
+                      rotate=rng.choice([0, 5, 41]) if kind != "first-node" else rng.choice([3, 77]))
+    b = dict(a)
+    if kind == "permute":
+        degs = list(a["degs"])
+        perm = degs[1:] + degs[:1]
+        if perm == degs:
+            kind = "rotate"
+        else:
+            b["degs"] = perm
+    if kind == "rotate":
+        b["rotate"] = a["rotate"] + rng.choice([1, 2, 1000])
+    if kind == "first-node":
+        # canonical (unrotated) angles on the r = 0 shell of a, the rotated ones on the first shell of b
+        r = list(a["r"])
+        r[0] = 0.25 * r[1]
+        b["r"] = r
+        b["zero"] = "none"
+    return kind, a, b
+
+
+def _r2_pair(ctx, M, add):
+    """class 1: two grids alive at once that agree in l_max, size and method but not in their angles; interleaved calls."""
+    rng = ctx.rng
+    kind, ia, ib = _pair_infos(ctx, M)
+    infos = [ia, ib]
+    grids = [_build(M, ia), _build(M, ib)]
+    N = grids[0].size
+    fs = [ctx.np_rng.normal(size=N), ctx.np_rng.normal(size=N)]
+    keep = [f.copy() for f in fs]
+    pts = _eval_points(rng, grids[0], 2)
+    seq = [(w, op, k) for w in (0, 1) for op in ("rcs", "interp") for k in (0, 1)] + [(0, "iac", 0), (1, "avg", 0), (1, "iac", 1), (0, "avg", 1)]
+    rng.shuffle(seq)
+    ctx.count(["two-grids", kind, ia, ib, [list(map(str, s)) for s in seq]], nontrivial=True, tag=f"two-grids:{kind}")
+    done = []
+    for (w, op, k) in seq:
+        done.append(f"grid{'AB'[w]}.{op}(f{k + 1})")
+        got = _run_op(grids[w], op, fs[k], pts)
+        want = _run_op(_build(M, infos[w]), op, keep[k].copy(), pts.copy())
+        if not _same(got, want):
+            ctx.fail("corr", f"atomgrid.{OPNAME[op]}:two-grids", f"{done[-1]} after {done[:-1]} (two grids of equal l_max and size, differing in {kind}) differs from the answer of a newly built grid",
+                     witness=dict(kind=kind, infoA=ia, infoB=ib, history=done))
+    for w in rng.sample([0, 1], 2):
+        g = grids[w]
+        comps = _comps(M, g, fs[0])
+        add(f"C09.components {_grid_tokens(M, g)} {fmat(_indep_basis(M, g))} {fvec(keep[0])}",
+            _chk_components(ctx, "atomgrid.radial_component_splines:two-grids", f"grid{'AB'[w]}.radial_component_splines(f1) with a second grid of equal l_max and size alive (differing in {kind})",
+                            dict(kind=kind, infoA=ia, infoB=ib), comps, float(np.max(np.abs(keep[0])))))
+    if not (_same(fs[0], keep[0]) and _same(fs[1], keep[1])):
+        ctx.fail("corr", "atomgrid.radial_component_splines:modifies-input", "a func_vals array shared between two grids was changed", witness=dict(infoA=ia, infoB=ib))
+
+
+def _r2_threshold(ctx, M, add, variant):
+    """class 4: radial nodes just below, at and just above the hard-coded 1e-8 of integrate_angular_coordinates. Left and right of it
+    the two formulas (regenerated angular weights / division by r^2 w) agree to rounding for ordinary data; they separate when the
+    products f_j * weights_j are subnormal (function values ~1e-300, or radial weights ~1e-300): the division then carries the
+    rounding of the subnormal products, the regenerated weights do not. The model takes the same branch as the code."""
+    rng = ctx.rng
+    g, info = _atom_grid(ctx, M, n=6, zero_kind=rng.choice(["edge", "zero-edge"]), cap=7, method=rng.choice(["lebedev", "spherical", "maxdet"]))
+    if variant == "w-tiny":
+        w = np.array(info["w"])
+        w[np.array(info["r"]) < 1e-6] *= 10.0 ** (-rng.uniform(297, 301))
+        info = dict(info, w=w.tolist())
+        g = _build(M, info)
+    f = ctx.np_rng.normal(size=g.size)
+    if variant == "f-tiny":
+        f = f * 10.0 ** (-rng.uniform(300, 305))
+    ctx.count(["threshold", variant, info], nontrivial=True, tag=f"threshold-1e-8:{variant}")
+    with np.errstate(all="ignore"):
+        impl = np.asarray(g.integrate_angular_coordinates(f), dtype=float)
+    fscale = float(np.max(np.abs(f)))
+    add(f"C09.integrate {_grid_tokens(M, g)} {fvec(f)}",
+        _chk_integrate(ctx, "atomgrid.integrate_angular_coordinates:threshold-1e-8", f"radial nodes {info['r'][:5]} ({variant})", info, impl, fscale))
+    if variant == "normal":
+        comps = _comps(M, g, f)
+        add(f"C09.components {_grid_tokens(M, g)} {fmat(_indep_basis(M, g))} {fvec(f)}",
+            _chk_components(ctx, "atomgrid.radial_component_splines:threshold-1e-8", f"radial nodes {info['r'][:5]}", info, comps, fscale))
+
+
+def _corr_round2(ctx, M, add):
+    import traceback
+    rng = ctx.rng
+
+    def guarded(what, info, fn):
+        try:
+            fn()
+        except Exception as e:  # noqa: BLE001
+            ctx.fail("corr", "atomgrid:raises", f"{what}: the implementation raised {type(e).__name__}: {e}", witness=dict(info=info, traceback=traceback.format_exc()[-1500:]))
+
+    for ig in range(ctx.n(4, 30)):
+        g, info = _atom_grid(ctx, M, n=rng.choice([2, 3, 4]), cap=9)
+        guarded("dtype / container variants", info, lambda: _r2_dtype(ctx, M, add, g, info, all_kinds=ig < 2))
+    for ih in range(ctx.n(6, 40)):
+        g, info = _atom_grid(ctx, M, n=rng.choice([2, 3, 4]), cap=9)
+        guarded("call history on one grid object", info, lambda: _r2_history(ctx, M, add, g, info))
+    for ip in range(ctx.n(6, 40)):
+        guarded("two grids alive at once", None, lambda: _r2_pair(ctx, M, add))
+    for it in range(ctx.n(6, 36)):
+        guarded("radial nodes next to 1e-8", None, lambda: _r2_threshold(ctx, M, add, ["normal", "f-tiny", "w-tiny"][it % 3]))
 
 
 # ----------------------------------------------------------------------------------------------
@@ -394,6 +843,7 @@ def corr(ctx: Ctx):
             g, info = _atom_grid(ctx, M, n=rng.choice([2, 3]), cap=7, zero_kind="none",
                                  center=np.array([1.7 * a + rng.uniform(-0.2, 0.2), rng.uniform(-0.5, 0.5), rng.uniform(-0.5, 0.5)]))
             grids.append(g)
+            minfos = (minfos if a else []) + [info]
         mol = mg.MolGrid(np.array([1] * nat), grids, bk.BeckeWeights(), store=True)
         f = ctx.np_rng.normal(size=mol.size)
         pts = np.array([[rng.uniform(-1, 1.7 * nat) for _ in range(3)] for _ in range(4)])
@@ -401,19 +851,21 @@ def corr(ctx: Ctx):
             try:
                 out = np.asarray(mol.interpolate(f.copy())(pts, dv, bool(dsph), bool(orad)), dtype=float)
             except Exception as e:  # noqa: BLE001
-                ctx.fail("corr", "molgrid.interpolate:raises", f"MolGrid.interpolate raised {type(e).__name__}: {e}")
+                ctx.fail("corr", "molgrid.interpolate:raises", f"MolGrid.interpolate raised {type(e).__name__}: {e}", witness=dict(natom=nat, infos=minfos))
                 break
             parts = []
             for a in range(nat):
                 s, e = mol.indices[a], mol.indices[a + 1]
                 parts.append(np.asarray(grids[a].interpolate((f * mol.aim_weights)[s:e])(pts, dv, bool(dsph), bool(orad)), dtype=float).reshape(-1))
 
-            def chk_mol(ans, out=out, nat=nat, dv=dv):
+            def chk_mol(ans, out=out, nat=nat, dv=dv, minfos=minfos):
                 ctx.count(["mol", nat, dv], nontrivial=nat >= 2, tag=f"mol:{nat}")
                 t = Tokens(ans); t.tok(); t.vec()
                 if not ans.startswith("ok") or not _cmp_arrays(out.reshape(-1), np.array(t.fvec()), 1e-12, atol=1e-13):
-                    ctx.fail("corr", "molgrid.interpolate", f"MolGrid.interpolate (deriv={dv}) differs from the model's sum over the atomic interpolants", witness=dict(natom=nat))
+                    ctx.fail("corr", "molgrid.interpolate", f"MolGrid.interpolate (deriv={dv}) differs from the model's sum over the atomic interpolants", witness=dict(natom=nat, infos=minfos))
             add(f"C09.mol_combine {nat} " + " ".join(fvec(p) for p in parts), chk_mol)
+    # ---- round 2: dtype / container kinds, call histories, two grids alive, nodes next to the 1e-8 threshold
+    _corr_round2(ctx, M, add)
     answers = driver_batch(lines)
     for ans, fn in zip(answers, checks):
         fn(ans)
@@ -505,7 +957,7 @@ def _fd(fun, h, order):
     return (-fun(-2 * h) + 2 * fun(-h) - 2 * fun(h) + fun(2 * h)) / (2 * h ** 3)
 
 
-SNIP_HEAD = """import warnings; warnings.filterwarnings('ignore')
+SNIP_DEFS = """import warnings; warnings.filterwarnings('ignore')
 import math
 import numpy as np
 from scipy.special import sph_harm_y
@@ -528,22 +980,47 @@ def angles(v):
         pol = np.arccos(np.clip(np.where(r > 0, v[:, 2] / np.where(r > 0, r, 1.0), 1.0), -1, 1))
     return r, np.arctan2(v[:, 1], v[:, 0]), pol
 
+def build(info):
+    rg = OneDGrid(np.array(info['r']), np.array(info['w']), (0, np.inf))
+    kw = dict(center=np.array(info['center']), rotate=info['rotate'], method=info['method'])
+    route = info.get('route', 'ctor')
+    if route == 'pruned':
+        return AtomGrid.from_pruned(rg, info['radius'], info['r_sectors'], info['d_sectors'], **kw)
+    if route == 'pruned-sizes':
+        return AtomGrid.from_pruned(rg, info['radius'], r_sectors=info['r_sectors'], d_sectors=None, s_sectors=info['s_sectors'], **kw)
+    if route == 'preset':
+        return AtomGrid.from_preset(info['atnum'], info['preset'], rg, kw['center'], kw['rotate'], kw['method'])
+    if route == 'sizes':
+        return AtomGrid(rg, None, sizes=list(info['sizes']), **kw)
+    return AtomGrid(rg, degrees=info['degs'], **kw)
+
+def make_g(bl):
+    L, smooth, a, alpha = bl['L'], bl['smooth'], np.array(bl['a']), np.array(bl['alpha'])
+    ls = [l for l in range(L + 1) for _ in range(2 * l + 1)]
+    def gfun(r):
+        r = np.asarray(r, dtype=float)
+        return np.array([r ** (ls[k] if smooth else 0) * (a[k, 0] + a[k, 1] * r + a[k, 2] * r * r) * np.exp(-alpha[k] * r * r) for k in range(len(ls))])
+    return gfun
+
+def values(grid, bl):
+    gfun = make_g(bl)
+    vals = np.zeros(grid.size)
+    for i in range(grid.n_shells):
+        s, e = grid.indices[i], grid.indices[i + 1]
+        ri = float(grid.rgrid.points[i])
+        v = AngularGrid(degree=int(grid.degrees[i]), method=grid.method).points if ri == 0.0 else grid.points[s:e] - grid.center
+        _, az, pol = angles(v)
+        vals[s:e] = np.einsum('ij,ij->j', gfun(np.full(e - s, ri)), real_harmonics(bl['L'], az, pol))
+    return vals
+"""
+
+SNIP_HEAD = SNIP_DEFS + """
 info = {info!r}
 bl = {bl!r}
-L, smooth, a, alpha = bl['L'], bl['smooth'], np.array(bl['a']), np.array(bl['alpha'])
-ls = [l for l in range(L + 1) for _ in range(2 * l + 1)]
-def gfun(r):
-    r = np.asarray(r, dtype=float)
-    return np.array([r ** (ls[k] if smooth else 0) * (a[k, 0] + a[k, 1] * r + a[k, 2] * r * r) * np.exp(-alpha[k] * r * r) for k in range(len(ls))])
-grid = AtomGrid(OneDGrid(np.array(info['r']), np.array(info['w']), (0, np.inf)), degrees=info['degs'],
-                center=np.array(info['center']), rotate=info['rotate'], method=info['method'])
-vals = np.zeros(grid.size)
-for i in range(grid.n_shells):
-    s, e = grid.indices[i], grid.indices[i + 1]
-    ri = float(grid.rgrid.points[i])
-    v = AngularGrid(degree=int(grid.degrees[i]), method=grid.method).points if ri == 0.0 else grid.points[s:e] - grid.center
-    _, az, pol = angles(v)
-    vals[s:e] = np.einsum('ij,ij->j', gfun(np.full(e - s, ri)), real_harmonics(L, az, pol))
+L = bl['L']
+gfun = make_g(bl)
+grid = build(info)
+vals = values(grid, bl)
 """
 
 SNIP_DERIV = SNIP_HEAD + """
@@ -578,6 +1055,103 @@ assert abs(got[2] - want_phi) <= {tol!r}, f'reported d/dphi {{got[2]}}, finite d
 SNIP_GENERIC = SNIP_HEAD + """
 # clause {clause}
 {body}
+"""
+
+# one clause of the property for one entry point (no braces in this text: it is pasted into formatted templates as a value too)
+SNIP_CLAUSE = """
+import grid.atomgrid as _agm
+_orig = _agm.CubicSpline
+_calls = []
+def _spy(*a, **k):
+    _calls.append(np.array(k.get('y', a[1] if len(a) > 1 else None), dtype=float))
+    return _orig(*a, **k)
+_agm.CubicSpline = _spy          # the arrays the splines are built from are the radial components / node values themselves
+
+def clause(grid, G, fvals, vals, op, loose=1.0):
+    # G[row, i] = g_lm(r_i), fvals = the function on the grid points, vals = the array handed to the library -> (error, tolerance)
+    gs = np.max(np.abs(G)) + 1e-300
+    if op == 'iac':
+        A = np.asarray(grid.integrate_angular_coordinates(vals), dtype=float)
+        err, tol = np.abs(A - math.sqrt(4 * math.pi) * G[0]), 2e-10 * 4 * gs * loose
+    elif op == 'avg':
+        del _calls[:]
+        grid.spherical_average(vals)
+        err, tol = np.abs(_calls[-1] - G[0] / math.sqrt(4 * math.pi)), 2e-10 * gs * loose
+    elif op == 'rcs':
+        del _calls[:]
+        grid.radial_component_splines(vals)
+        comps = np.array(_calls)
+        want = np.zeros_like(comps)
+        k = min(len(G), len(comps))
+        want[:k] = G[:k]
+        err, tol = np.abs(comps - want), 1e-9 * 4 * gs * loose
+    else:
+        F = grid.interpolate(vals)
+        nrows = (int(max(grid.degrees)) // 2 + 1) ** 2
+        err = np.abs(np.asarray(F(grid.points), dtype=float) - fvals)
+        tol = 1e-8 * (np.max(np.abs(fvals)) + 1e-300) * (1 + nrows) * loose
+    return float(np.max(np.nan_to_num(err, nan=np.inf))), float(tol)
+"""
+
+SNIP_HIST = SNIP_DEFS + SNIP_CLAUSE + """
+infos = {infos!r}
+bls = {bls!r}
+steps = {steps!r}     # (grid, function, call) in the order made; the clause of the last call is asserted
+pts = np.array({pts!r})
+grids = [build(i) for i in infos]
+vals = dict()
+for n, (w, k, op) in enumerate(steps):
+    g = grids[w]
+    if k is None:
+        if op.startswith('shell'):
+            g.get_shell_grid(int(op.split(':')[1]), r_sq=bool(int(op.split(':')[2])))
+        elif op == 'sph':
+            g.convert_cartesian_to_spherical()
+        elif op == 'sph-points':
+            g.convert_cartesian_to_spherical(pts)
+        elif op == 'integrate':
+            g.integrate(np.ones(g.size))
+        else:
+            getattr(g, op)          # points, weights, basis
+        continue
+    if (w, k) not in vals:
+        vals[(w, k)] = values(g, bls[k])          # one array object per (grid, function), reused by every call
+    true = values(g, bls[k])
+    err, tol = clause(g, make_g(bls[k])(g.rgrid.points), true, vals[(w, k)], op)
+    if n == len(steps) - 1:
+        assert np.array_equal(vals[(w, k)], true), 'the call ' + op + ' changed the function values handed in'
+        assert err <= tol, (op, err, tol)
+"""
+
+SNIP_MOL = SNIP_DEFS + """
+from grid.molgrid import MolGrid
+from grid.becke import BeckeWeights
+infos = {infos!r}
+atnums = {atnums!r}
+co = {co!r}
+pts = np.array({pts!r})
+grids = [build(i) for i in infos]
+mol = MolGrid(np.array(atnums), grids, BeckeWeights(order=3), store=True)
+def fun(p):
+    out = np.zeros(len(p))
+    for i, (a0, al, v) in zip(infos, co):
+        d = p - np.array(i['center'])
+        out += (a0 + d @ np.array(v)) * np.exp(-al * np.sum(d * d, axis=1))
+    return out
+f = fun(mol.points)
+keep = f.copy()
+F1 = mol.interpolate(f)
+a = np.asarray(F1(pts, {dv!r}, {ds!r}, {orad!r}))
+mol.interpolate(f * f - 0.3)(pts)
+for g in grids:
+    g.interpolate(np.cos(np.arange(g.size)))(pts)
+b = np.asarray(mol.interpolate(f)(pts, {dv!r}, {ds!r}, {orad!r}))
+c = np.asarray(F1(pts, {dv!r}, {ds!r}, {orad!r}))
+assert np.array_equal(f, keep), 'MolGrid.interpolate changed the function values handed in'
+assert np.array_equal(a, b) and np.array_equal(a, c), 'the same function on the same MolGrid gives different answers after other calls'
+fresh = [build(i) for i in infos]
+want = sum(np.asarray(fresh[k].interpolate((f * mol.aim_weights)[mol.indices[k]:mol.indices[k + 1]])(pts, {dv!r}, {ds!r}, {orad!r}), dtype=float) for k in range(len(fresh)))
+assert np.allclose(np.asarray(a, dtype=float), want, rtol=0, atol=1e-11 * max(1.0, float(np.max(np.abs(want))))), 'not the sum of the atomic interpolants of w_A f'
 """
 
 
@@ -624,7 +1198,7 @@ def _oracle_atom(ctx, M, g, info, bl, budget, label):
                  snippet=snip("number of components", f"assert len(grid.radial_component_splines(vals)) == {nrows}"))
     comps = np.array([s(r_nodes) for s in splines])
     handed = np.array([y for (_, y) in spy.calls])
-    if info["zero"] in ("tiny", "both") and handed.shape == comps.shape:
+    if info["zero"] in ("tiny", "both", "edge", "zero-edge") and handed.shape == comps.shape:
         # knots 1e-9 apart: reading a cubic piece back at its right end rounds at the size of its coefficients;
         # the clause is examined on the arrays the splines are built from
         comps = handed
@@ -662,9 +1236,11 @@ def _oracle_atom(ctx, M, g, info, bl, budget, label):
     dirs = ctx.np_rng.normal(size=(npt, 3))
     dirs /= np.linalg.norm(dirs, axis=1)[:, None]
     radii = np.array([rng.uniform(0.05, 1.0) * rmax for _ in range(npt)])
-    special = np.array([[0, 0, 0.0], [0, 0, 0.43 * rmax], [0, 0, -0.71 * rmax], [0.3 * rmax, 0, 0], [0, -0.55 * rmax, 0]])
-    rel = np.vstack([dirs * radii[:, None], special])
-    pts = c + rel
+    special = np.array([[0, 0, 0.0], [0, 0, 0.43 * rmax], [0, 0, -0.71 * rmax], [0.3 * rmax, 0, 0], [0, -0.55 * rmax, 0],
+                        # next to the 1e-10 thresholds of the evaluation side (the value clause has no special case there)
+                        [0, 0, 9e-11], [1.1e-10, 0, 0], [0, 1e-9 * rmax, 0.5 * rmax], [2e-8 * rmax, 0, -0.5 * rmax]])
+    pts = c + np.vstack([dirs * radii[:, None], special])
+    rel = pts - c                          # the position about the centre of the point actually handed over
     rr, az, pol = _angles(rel)
     Lc = int(max(g.degrees)) // 2
     Yind = real_harmonics(Lc, az, pol)[: len(splines)]
@@ -822,7 +1398,7 @@ def _oracle_mol(ctx, M, budget):
 def _oracle_mol_inner(ctx, M, budget):
     mg, bk = M[4], M[5]
     rng = ctx.rng
-    for _ in range(2 if budget == "small" else 10):
+    for _ in range(2 if budget == "small" and not ctx.thorough else 8):
         nat = rng.choice([2, 3])
         grids, infos = [], []
         for a in range(nat):
@@ -830,7 +1406,17 @@ def _oracle_mol_inner(ctx, M, budget):
                                  center=np.array([1.6 * a + rng.uniform(-0.2, 0.2), rng.uniform(-0.5, 0.5), rng.uniform(-0.5, 0.5)]))
             grids.append(g)
             infos.append(info)
-        mol = mg.MolGrid(np.array([rng.choice([1, 6, 8]) for _ in range(nat)]), grids, bk.BeckeWeights(order=3), store=True)
+        atnums = [rng.choice([1, 6, 8]) for _ in range(nat)]
+        _mol_case(ctx, M, grids, infos, atnums)
+
+
+def _mol_case(ctx, M, grids, infos, atnums):
+    """the molecular clause (and its behaviour under call histories) on one molecule"""
+    mg, bk = M[4], M[5]
+    rng = ctx.rng
+    nat = len(grids)
+    if True:
+        mol = mg.MolGrid(np.array(atnums), grids, bk.BeckeWeights(order=3), store=True)
         # a smooth molecular function: sum of Gaussians times low polynomials on the nuclei
         cs = [g.center for g in grids]
         co = [(rng.uniform(0.5, 1.5), rng.uniform(0.4, 1.2), np.array([rng.uniform(-1, 1) for _ in range(3)])) for _ in cs]
@@ -853,6 +1439,55 @@ def _oracle_mol_inner(ctx, M, budget):
             if got.shape != np.shape(want) or not _cmp_arrays(got, want, 1e-11, atol=1e-13):
                 ctx.fail("oracle", "molgrid.interpolate:sum-of-atomic", f"MolGrid.interpolate(deriv={dv}, deriv_spherical={dsph}, only_radial_derivs={orad}) is not the sum of the atomic interpolants of w_A f",
                          witness=dict(infos=infos, points=pts))
+        _oracle_mol_state(ctx, M, mol, grids, infos, atnums, co, fun, f, pts)
+
+
+def _oracle_mol_state(ctx, M, mol, grids, infos, atnums, co, fun, f, pts):
+    """class 1/3/6 for MolGrid.interpolate (store=True is required): other functions and direct use of the stored atomic grids in
+    between, the same function twice, the first callable again, a second MolGrid built from new atomic grids one of which was used
+    directly before (its basis cache filled outside the MolGrid), keyword form of the callable, func_vals untouched; the clause itself
+    against atomic grids that were never part of a MolGrid."""
+    mg, bk = M[4], M[5]
+    keep = f.copy()
+    wit = dict(infos=infos, atnums=atnums, points=pts)
+    try:
+        mg.MolGrid(np.array(atnums), [_build(M, i) for i in infos], bk.BeckeWeights(order=3), store=False).interpolate(keep.copy())
+        ctx.count(["mol", "store=False", "accepted"], nontrivial=False, tag="oracle:mol:store-false:accepted")
+    except ValueError:
+        ctx.count(["mol", "store=False", "rejected"], nontrivial=False, tag="oracle:mol:store-false:rejected")
+    for (dv, ds, orad) in [(0, False, False), (1, False, False), (1, True, False), (2, False, True)]:
+        ctx.count(["oracle-mol-state", infos, dv, ds, orad], nontrivial=True, tag="oracle:mol:history")
+
+        def snip():
+            return SNIP_MOL.format(infos=infos, atnums=list(atnums), co=[(a0, al, [float(x) for x in v]) for (a0, al, v) in co], pts=pts.tolist(), dv=dv, ds=ds, orad=orad)
+        F1 = mol.interpolate(f)
+        a = np.asarray(F1(pts, dv, ds, orad))
+        mol.interpolate(f * f - 0.3)(pts)
+        for g in grids:
+            g.interpolate(np.cos(np.arange(g.size)))(pts)
+        b = np.asarray(mol.interpolate(f)(pts, dv, ds, orad))
+        c = np.asarray(F1(pts, dv, ds, orad))
+        kwform = np.asarray(mol.interpolate(f)(points=pts, deriv=dv, deriv_spherical=ds, only_radial_derivs=orad))
+        fresh = [_build(M, i) for i in infos]
+        fresh[0].interpolate(np.cos(np.arange(fresh[0].size)))(pts, 1)          # used directly before it becomes part of a MolGrid
+        mol2 = mg.MolGrid(np.array(atnums), fresh, bk.BeckeWeights(order=3), store=True)
+        d = np.asarray(mol2.interpolate(keep.copy())(pts, dv, ds, orad))
+        if not _same(f, keep):
+            ctx.fail("oracle", "molgrid.interpolate:modifies-input", "MolGrid.interpolate changed the function values handed in", witness=wit, snippet=snip())
+            f[...] = keep
+        for name, other in (("a second interpolate(f) after another function and after direct use of the stored atomic grids", b), ("the first callable evaluated again", c),
+                            ("the keyword form of the callable", kwform), ("a second MolGrid built from new atomic grids", d)):
+            if not _same(a, other):
+                ctx.fail("oracle", "molgrid.interpolate:history", f"MolGrid.interpolate(f)(points, deriv={dv}, deriv_spherical={ds}, only_radial_derivs={orad}): {name} "
+                         "gives a different answer for the same function and points", witness=wit, snippet=snip())
+        never = [_build(M, i) for i in infos]
+        want = 0.0
+        for k in range(len(never)):
+            s, e = mol.indices[k], mol.indices[k + 1]
+            want = want + np.asarray(never[k].interpolate(keep[s:e] * mol.aim_weights[s:e])(pts, dv, ds, orad), dtype=float)
+        if np.shape(a) != np.shape(want) or not _cmp_arrays(a, want, 1e-11, atol=1e-13):
+            ctx.fail("oracle", "molgrid.interpolate:sum-of-atomic", f"MolGrid.interpolate(deriv={dv}, deriv_spherical={ds}, only_radial_derivs={orad}) is not the sum of the atomic interpolants "
+                     "of w_A f (atomic grids built separately)", witness=wit, snippet=snip())
 
 
 SNIP_FIXED = """import warnings; warnings.filterwarnings('ignore')
@@ -912,6 +1547,203 @@ def _replay_findings(ctx, M):
                              witness=dict(function=f"{comp} exp(-r^2)", point=p), snippet=SNIP_FIXED.format(comp=comp, p=p.tolist(), mode="spherical"))
 
 
+# ----------------------------------------------------------------------------------------------
+# round 2 oracle: the clauses under call histories, with two grids alive, for other dtypes / containers of func_vals, on grids
+# from the alternative construction routes
+# ----------------------------------------------------------------------------------------------
+def _clause(M, g, G, fvals, vals, op, loose=1.0):
+    """one clause of the property for one entry point. G[row, i] = g_lm(r_i) (the rows of the function), fvals = the function on the
+    grid points, vals = the array handed to the library. -> None, or the description of the violation"""
+    r = g.rgrid.points
+    gs = float(np.max(np.abs(G))) + 1e-300
+    if op == "iac":
+        A = np.asarray(g.integrate_angular_coordinates(vals), dtype=float)
+        want = math.sqrt(4 * math.pi) * G[0]
+        d = np.abs(np.nan_to_num(A - want, nan=np.inf))
+        i = int(np.argmax(d))
+        return None if d[i] <= 2e-10 * 4 * gs * loose else f"angular integral on shell {i} (r = {r[i]!r}, degree {g.degrees[i]}): {A[i]!r}, sqrt(4 pi) g_00(r_i) = {want[i]!r}"
+    if op == "avg":
+        with _SplineSpy(M[0]) as spy:
+            spl = g.spherical_average(vals)
+        y = spy.calls[-1][1] if spy.calls and spy.calls[-1][1].shape == (g.n_shells,) else np.asarray(spl(r), dtype=float)
+        want = G[0] / math.sqrt(4 * math.pi)
+        d = np.abs(np.nan_to_num(y - want, nan=np.inf))
+        i = int(np.argmax(d))
+        return None if d[i] <= 2e-10 * gs * loose else f"spherical average at the node {i} (r = {r[i]!r}): {y[i]!r}, g_00(r_i) / sqrt(4 pi) = {want[i]!r}"
+    nrows = (int(max(g.degrees)) // 2 + 1) ** 2
+    if op == "rcs":
+        comps = _comps(M, g, vals)
+        if comps.shape[0] != nrows:
+            return f"{comps.shape[0]} radial components, (l_max // 2 + 1)^2 = {nrows}"
+        want = np.zeros_like(comps)
+        k = min(G.shape[0], nrows)
+        want[:k] = G[:k]
+        d = np.abs(np.nan_to_num(comps - want, nan=np.inf))
+        row, i = np.unravel_index(int(np.argmax(d)), d.shape)
+        return None if d[row, i] <= 1e-9 * 4 * gs * loose else (f"radial component row {row} at shell {i} (r = {r[i]!r}, degree {g.degrees[i]}): {comps[row, i]!r}, "
+                                                                f"g_lm(r_i) = {want[row, i]!r}")
+    F = g.interpolate(vals)
+    fv = np.asarray(F(g.points), dtype=float)
+    d = np.abs(np.nan_to_num(fv - fvals, nan=np.inf))
+    j = int(np.argmax(d))
+    tol = 1e-8 * (float(np.max(np.abs(fvals))) + 1e-300) * (1 + nrows) * loose
+    return None if d[j] <= tol else f"interpolant at grid point {j} = {fv[j]!r}, function value {fvals[j]!r}"
+
+
+def _neutral_named(g, op, pts):
+    if op.startswith("shell"):
+        g.get_shell_grid(int(op.split(":")[1]), r_sq=bool(int(op.split(":")[2])))
+    elif op == "sph":
+        g.convert_cartesian_to_spherical()
+    elif op == "sph-points":
+        g.convert_cartesian_to_spherical(pts)
+    elif op == "integrate":
+        g.integrate(np.ones(g.size))
+    else:
+        getattr(g, op)
+
+
+def _oracle_state(ctx, M, budget):
+    """class 1/3: the clauses of the property when the entry points are called in a seeded random order, twice, on one grid object
+    with two band-limited functions (one array object per function, reused by every call), or interleaved on two grids alive at once
+    that agree in l_max, size and method but not in their angles; attribute reads and get_shell_grid / convert_cartesian_to_spherical
+    in between."""
+    rng = ctx.rng
+    for isc in range(4 if budget == "small" and not ctx.thorough else 16):
+        if isc % 2 == 1:
+            zk = rng.choice(["none", "zero", "tiny"])
+            _, ia = _atom_grid(ctx, M, n=rng.choice([3, 4, 5]), cap=9, zero_kind=zk, center=np.zeros(3) if zk == "tiny" else None)
+            kind, infos = "one-grid", [ia]
+        else:
+            kind, ia, ib = _pair_infos(ctx, M)
+            infos = [ia, ib]
+        _state_scenario(ctx, M, kind, infos)
+
+
+def _state_scenario(ctx, M, kind, infos):
+    """one seeded random call history on the grids described by infos (one grid, or two of equal size)"""
+    import traceback
+    rng = ctx.rng
+    if True:
+        grids = [_build(M, i) for i in infos]
+        Lmax = min(int(min(g.degrees)) for g in grids) // 2
+        bls = [BandLimited(rng, Lmax, smooth=True), BandLimited(rng, rng.randrange(0, Lmax + 1), smooth=True)]
+        steps = [(w, k, op) for w in range(len(grids)) for k in (0, 1) for op in ("iac", "avg", "rcs", "interp")]
+        if len(grids) == 2:
+            steps = rng.sample(steps, 10)
+        nshell = min(g.n_shells for g in grids)
+        neutral = [f"shell:{rng.randrange(nshell)}:1", f"shell:{rng.randrange(nshell)}:0", "sph", "sph-points", "points", "weights", "basis", "integrate"]
+        steps += [(rng.randrange(len(grids)), None, nop) for nop in rng.sample(neutral, 5)]
+        rng.shuffle(steps)
+        steps += rng.sample([s for s in steps if s[1] is not None], 4)
+        pts = np.array([[0.3, -0.2, 0.5], [0.0, 0.0, 0.0]]) + np.array(infos[0]["center"])
+        first = next(op for (_, k, op) in steps if k is not None)
+        ctx.count(["oracle-history", kind, infos, [list(map(str, s)) for s in steps]], nontrivial=True, tag=f"oracle:history:{kind}:first={first}")
+        vals, true = {}, {}
+        try:
+            for n, (w, k, op) in enumerate(steps):
+                g = grids[w]
+                if k is None:
+                    _neutral_named(g, op, pts)
+                    continue
+                if (w, k) not in vals:
+                    true[(w, k)] = _grid_values(M, g, bls[k])
+                    vals[(w, k)] = true[(w, k)].copy()
+                v = vals[(w, k)]
+                msg = _clause(M, g, bls[k].g(g.rgrid.points), true[(w, k)], v, op)
+                changed = not _same(v, true[(w, k)])
+                if not (msg or changed):
+                    continue
+                hist = [f"grid{'AB'[a]}.{c}" + ("" if b is None else f"(f{b + 1})") for (a, b, c) in steps[:n + 1]]
+                wit = dict(kind=kind, infos=infos, functions=[b.to_json() for b in bls], steps=steps[:n + 1])
+                snippet = SNIP_HIST.format(infos=infos, bls=[b.to_json() for b in bls], steps=steps[:n + 1], pts=pts.tolist())
+                if changed:
+                    ctx.fail("oracle", f"atomgrid.{OPNAME[op]}:modifies-input", f"{OPNAME[op]} changed the function values handed in (calls so far: {hist})", witness=wit, snippet=snippet)
+                    v[...] = true[(w, k)]
+                if msg:
+                    ctx.fail("oracle", f"atomgrid.{OPNAME[op]}:history", f"band-limited function (L = {bls[k].L}), calls in this order: {hist}; at the last one: {msg}", witness=wit, snippet=snippet)
+        except Exception as e:  # noqa: BLE001
+            ctx.fail("oracle", "atomgrid.interpolate:raises", f"a sequence of calls on band-limited functions raised {type(e).__name__}: {e}",
+                     witness=dict(infos=infos, steps=steps, traceback=traceback.format_exc()[-1200:]),
+                     snippet=SNIP_HIST.format(infos=infos, bls=[b.to_json() for b in bls], steps=steps, pts=pts.tolist()))
+
+
+def _oracle_dtype(ctx, M, budget):
+    """class 2/3: the clauses for func_vals handed over as integers (a function that is an integer constant k_i on shell i is
+    band-limited with L = 0, g_00(r_i) = sqrt(4 pi) k_i), as float32 (band-limited up to float32 rounding), read-only and strided."""
+    rng = ctx.rng
+    for it in range(3 if budget == "small" and not ctx.thorough else 10):
+        g, info = _atom_grid(ctx, M, n=rng.choice([3, 4]), cap=9, zero_kind=rng.choice(["none", "zero"]))
+        _dtype_scenario(ctx, M, g, info)
+
+
+def _dtype_scenario(ctx, M, g, info):
+    import traceback
+    rng = ctx.rng
+    if True:
+        r = g.rgrid.points
+        k = [rng.choice([-7, -3, -1, 1, 2, 5, 9]) for _ in range(g.n_shells)]
+        const = np.repeat(np.array(k), np.diff(g.indices))
+        Gc = (math.sqrt(4 * math.pi) * np.array(k, dtype=float))[None, :]
+        bl = BandLimited(rng, min(int(min(g.degrees)) // 2, 9), smooth=True)
+        tv = _grid_values(M, g, bl)
+        Gb = bl.g(r)
+        ro = tv.copy()
+        ro.setflags(write=False)
+        big = np.zeros(2 * tv.size)
+        big[::2] = tv
+        f32loose = 1e3 * (1 + bl.nrows)
+        kdef = f"k = np.array({k!r})\n"
+        cases = [("int64", const.astype(np.int64), Gc, const.astype(float), 1.0, kdef + "arr = np.repeat(k, np.diff(grid.indices)).astype(np.int64)\nG = (math.sqrt(4 * math.pi) * k)[None, :].astype(float)\nfv = arr.astype(float)"),
+                 ("int32", const.astype(np.int32), Gc, const.astype(float), 1.0, kdef + "arr = np.repeat(k, np.diff(grid.indices)).astype(np.int32)\nG = (math.sqrt(4 * math.pi) * k)[None, :].astype(float)\nfv = arr.astype(float)"),
+                 ("float32", tv.astype(np.float32), Gb, tv, f32loose, "arr = vals.astype(np.float32)\nG = gfun(grid.rgrid.points)\nfv = vals"),
+                 ("readonly", ro, Gb, tv, 1.0, "arr = vals.copy()\narr.setflags(write=False)\nG = gfun(grid.rgrid.points)\nfv = vals"),
+                 ("strided", big[::2], Gb, tv, 1.0, "big = np.zeros(2 * vals.size)\nbig[::2] = vals\narr = big[::2]\nG = gfun(grid.rgrid.points)\nfv = vals")]
+        for kind, arr, G, fv, loose, adef in cases:
+            keep = arr.copy()
+            ctx.count(["oracle-dtype", kind, info], nontrivial=True, tag=f"oracle:func_vals:{kind}")
+            for op in ("iac", "avg", "rcs", "interp"):
+                def snip():
+                    return SNIP_GENERIC.format(info=info, bl=bl.to_json(), clause=f"{OPNAME[op]} with func_vals given as {kind}",
+                                               body=SNIP_CLAUSE + adef + f"\nkeep = arr.copy()\nerr, tol = clause(grid, G, fv, arr, {op!r}, {loose!r})\n"
+                                               "assert arr.dtype == keep.dtype and np.array_equal(arr, keep), 'the call changed the function values handed in'\nassert err <= tol, (err, tol)")
+                try:
+                    msg = _clause(M, g, G, fv, arr, op, loose)
+                except Exception as e:  # noqa: BLE001
+                    ctx.fail("oracle", f"atomgrid.{OPNAME[op]}:dtype", f"{OPNAME[op]} raised {type(e).__name__}: {e} for func_vals given as {kind} (dtype {arr.dtype}, writeable {arr.flags.writeable}, "
+                             f"C-contiguous {arr.flags.c_contiguous})", witness=dict(info=info, kind=kind, traceback=traceback.format_exc()[-800:]), snippet=snip())
+                    continue
+                if msg:
+                    ctx.fail("oracle", f"atomgrid.{OPNAME[op]}:dtype", f"func_vals given as {kind} (dtype {arr.dtype}): {msg}", witness=dict(info=info, kind=kind, function=bl.to_json(), k=k), snippet=snip())
+                if arr.dtype != keep.dtype or not _same(arr, keep):
+                    ctx.fail("oracle", f"atomgrid.{OPNAME[op]}:modifies-input", f"{OPNAME[op]} changed the function values handed in ({kind})", witness=dict(info=info, kind=kind), snippet=snip())
+                    arr = keep.copy()          # the later entry points are examined on the original values
+
+
+def _route_info(ctx, M):
+    """parameters of a grid built through from_pruned (degrees / sizes), from_preset (custom radial grid) or the sizes= keyword"""
+    rng = ctx.rng
+    route = rng.choice(["pruned", "pruned-sizes", "preset", "sizes"])
+    zero = rng.choice(["none", "zero"])
+    r, w = _radial(rng, rng.choice([4, 5, 6]), zero)
+    info = dict(route=route, n=len(r), zero=zero, center=[rng.uniform(-1, 1) for _ in range(3)], rotate=rng.choice([0, 1, 37, 999]),
+                r=r.tolist(), w=w.tolist(), method="lebedev")
+    lebedev_sizes = [6, 14, 26, 38, 50]          # degrees 3, 5, 7, 9, 11
+    if route == "pruned":
+        info["method"] = rng.choice(["lebedev", "spherical", "maxdet"])
+        pool = [d for d in DEGS[info["method"]] if 2 <= d <= 11]
+        info.update(radius=rng.uniform(0.6, 1.4), r_sectors=sorted(rng.uniform(0.2, 2.5) for _ in range(2)), d_sectors=[rng.choice(pool) for _ in range(3)])
+    elif route == "pruned-sizes":
+        info.update(radius=rng.uniform(0.6, 1.4), r_sectors=sorted(rng.uniform(0.2, 2.5) for _ in range(2)), s_sectors=[rng.choice(lebedev_sizes) for _ in range(3)])
+    elif route == "preset":
+        info.update(atnum=rng.choice([1, 6, 8]), preset=rng.choice(["coarse", "medium", "sg_1"]))
+    else:
+        info.update(sizes=[rng.choice(lebedev_sizes) for _ in range(len(r))])
+    g = _build(M, info)
+    info["degs"] = [int(d) for d in g.degrees]
+    return g, info
+
+
 def _guarded(ctx, M, g, info, bl, budget, label):
     """an exception out of the library while the clauses are evaluated is a failing input of its own"""
     import traceback
@@ -946,8 +1778,23 @@ def oracle(ctx: Ctx, budget: str):
             method = rng.choice(METHODS)
             plans.append(dict(method=method, mixed=rng.random() < 0.6, zero_kind=rng.choice(["none", "zero", "tiny", "both"]),
                               cap=None if method != "ahrens_beylkin" else 23, n=rng.choice([3, 4, 6, 8])))
+    # round 2: a rotated grid with a shell at r = 0 (smooth and canonical functions: the angles of that shell are those of the
+    # UNROTATED angular grid), radial nodes at 9.99e-9, 1e-8, 1.01e-8 (both sides of the hard-coded threshold), larger degrees
+    m = rng.choice(["lebedev", "spherical", "maxdet"])
+    plans.append(dict(method=m, mixed=True, zero_kind="zero", cap=9, n=4, rotate=rng.choice([1, 37, 123456]), canonical=True))
+    plans.append(dict(method=rng.choice(METHODS), mixed=False, zero_kind="zero", cap=19, n=4, rotate=rng.randrange(1, 10**6), canonical=True))
+    plans.append(dict(method=rng.choice(["lebedev", "spherical", "maxdet"]), mixed=True, zero_kind="edge", cap=9, n=6, rotate=rng.choice([0, 5])))
+    plans.append(dict(method=rng.choice(["lebedev", "spherical", "maxdet"]), mixed=rng.random() < 0.5, zero_kind="zero-edge", cap=9, n=7))
+    plans.append(dict(method="lebedev", degs=[rng.choice([17, 19, 21, 23])], zero_kind="none", n=3))
+    if big:
+        plans.append(dict(method="lebedev", degs=[41], zero_kind="zero", n=4, Lcap=14, rotate=rng.choice([0, 7])))
+        plans.append(dict(method="lebedev", degs=[29, 59, 41], zero_kind="none", n=4, Lcap=14))
+        plans.append(dict(method="spherical", degs=[rng.choice([21, 25, 31])], zero_kind="zero", n=4, Lcap=12))
+        plans.append(dict(method="maxdet", degs=[rng.choice([20, 30])], zero_kind="none", n=3, Lcap=12))
     for ip, kw in enumerate(plans):
-        if kw["zero_kind"] in ("tiny", "both"):
+        Lcap = kw.pop("Lcap", 9)
+        canonical = kw.pop("canonical", False)
+        if kw["zero_kind"] in ("tiny", "both", "edge", "zero-edge"):
             # the points of a shell of radius 1e-9 about a centre of size 1 are rounded at the 1e-7 level relative to the
             # radius; the property is about the exact points, so such shells are examined about the origin
             kw["center"] = np.zeros(3)
@@ -955,10 +1802,76 @@ def oracle(ctx: Ctx, budget: str):
         dmin = int(min(g.degrees))
         Lmax = dmin // 2
         L = Lmax if ip % 2 == 0 else rng.randrange(0, Lmax + 1)
-        L = min(L, 9)
+        L = min(L, Lcap)
         _guarded(ctx, M, g, info, BandLimited(rng, L, smooth=True), budget, "smooth")
-        if info["zero"] in ("zero", "both") and ip % 2 == 1:
+        if info["zero"] in ("zero", "both", "zero-edge") and (ip % 2 == 1 or canonical):
             # g_lm(0) != 0: the function values on the r = 0 shell are taken at the documented canonical angles
             g2, info2 = _atom_grid(ctx, M, **kw)
             _guarded(ctx, M, g2, info2, BandLimited(rng, min(int(min(g2.degrees)) // 2, 9), smooth=False), budget, "canonical")
+    # round 2: alternative construction routes (from_pruned with degrees / sizes, from_preset with a custom radial grid, sizes=)
+    for _ in range(12 if big else 3):
+        try:
+            g, info = _route_info(ctx, M)
+        except Exception as e:  # noqa: BLE001
+            ctx.fail("oracle", "atomgrid.interpolate:raises", f"building an atomic grid through an alternative route raised {type(e).__name__}: {e}")
+            continue
+        _guarded(ctx, M, g, info, BandLimited(rng, min(int(min(g.degrees)) // 2, 9), smooth=True), budget, "route:" + info["route"])
+    _oracle_state(ctx, M, budget)
+    _oracle_dtype(ctx, M, budget)
     _oracle_mol(ctx, M, budget)
+
+
+_INFO_KEYS = {"r", "w", "degs", "center", "rotate", "method"}
+
+
+def oracle_at(ctx: Ctx, failure):
+    """a correspondence disagreement -> the property itself on the very grid(s) of that case: the recorded parameter sets are rebuilt
+    (same radial nodes and weights, degrees, centre, rotation seed, method, construction route) and every clause is evaluated there
+    for band-limited functions (top band limit min_i d_i // 2, a lower one, and, with a shell at r = 0, a function with g_lm(0) != 0
+    at the canonical angles); cases that came from a call history, from two grids alive at once or from another dtype are replayed in
+    that form too. Keys are those of the oracle."""
+    w = failure.witness
+    if not isinstance(w, dict):
+        return
+    # the witness is the parameter set itself, or holds it / them under info, infoA + infoB, infos (possibly one level down)
+    cands = [w, w.get("info"), w.get("infoA"), w.get("infoB")] + (w["infos"] if isinstance(w.get("infos"), list) else [])
+    for v in list(cands):
+        if isinstance(v, dict) and not _INFO_KEYS <= set(v):
+            cands += [v.get("info"), v.get("infoA"), v.get("infoB")]
+    infos = []
+    for v in cands:
+        if isinstance(v, dict) and _INFO_KEYS <= set(v) and v not in infos:
+            infos.append(dict(v))
+    if not infos:
+        return
+    M = _mods()
+    rng = ctx.rng
+    if failure.key.startswith("molgrid"):
+        grids = [_build(M, i) for i in infos]
+        try:
+            _mol_case(ctx, M, grids, infos, [1] * len(grids))
+        except Exception as e:  # noqa: BLE001
+            ctx.fail("oracle", "molgrid.interpolate:raises", f"MolGrid.interpolate of a smooth molecular function raised {type(e).__name__}: {e}", witness=dict(infos=infos))
+        return
+    for info in infos[:2]:
+        if any(0.0 < x < 1e-6 for x in info["r"]) and any(c != 0.0 for c in info["center"]):
+            # shells of radius ~1e-8 about a centre of size 1 are rounded at the 1e-7 level relative to the radius; the property is
+            # about the exact points, so (as in oracle) such grids are examined about the origin
+            info["center"] = [0.0, 0.0, 0.0]
+        try:
+            g = _build(M, info)
+        except Exception as e:  # noqa: BLE001
+            ctx.fail("oracle", "atomgrid.interpolate:raises", f"rebuilding the grid of a correspondence disagreement raised {type(e).__name__}: {e}", witness=dict(info=info))
+            continue
+        info.setdefault("zero", "zero" if 0.0 in info["r"] else "none")
+        Lmax = min(int(min(g.degrees)) // 2, 12)
+        for L in sorted({Lmax, rng.randrange(0, Lmax + 1)}, reverse=True):
+            _guarded(ctx, M, _build(M, info), info, BandLimited(rng, L, smooth=True), "large", "at-corr-disagreement")
+        if 0.0 in info["r"] and g.n_shells >= 2:
+            _guarded(ctx, M, _build(M, info), info, BandLimited(rng, min(Lmax, 9), smooth=False), "large", "at-corr-disagreement:canonical")
+        if any(t in failure.key for t in (":dtype", ":modifies-input")) and g.n_shells >= 2:
+            _dtype_scenario(ctx, M, _build(M, info), info)
+    if any(t in failure.key for t in (":history", ":two-grids", ":basis-cache", ":modifies-input")):
+        same = len(infos) >= 2 and len(infos[0]["r"]) == len(infos[1]["r"])
+        if all(len(i["r"]) >= 2 for i in infos[:2]):
+            _state_scenario(ctx, M, "at-corr-disagreement", infos[:2] if same else infos[:1])
